@@ -46,9 +46,8 @@ theorem start_inv (hasXq hasClass : Bool) (hdep : hasClass = true → hasXq = tr
   have hst : (applyConfig (bootState hasXq hasClass lim) {} cfg true).1.hasXq = hasXq ∧
       (applyConfig (bootState hasXq hasClass lim) {} cfg true).1.hasClass = hasClass ∧
       (applyConfig (bootState hasXq hasClass lim) {} cfg true).1.lim = lim := by
-    unfold applyConfig
-    dsimp only
-    split <;> split <;> simp [servicesChanged, classChanged, bootState]
+    have f := applyConfig_frame (bootState hasXq hasClass lim) {} cfg true
+    exact ⟨f.1, f.2.1, f.2.2.1⟩
   refine ⟨(by rw [hreqs]; simp [ids]), (by intro r hr; rw [hreqs] at hr; cases hr), ?_, ?_⟩
   · rw [hst.1, hst.2.1]; exact hdep
   · rw [hst.2.2]; exact hacc
